@@ -102,6 +102,15 @@ theorem fixed_array_flags_witness : evalTokens semU witnessArray = .ok () := by 
 separator" (`'*'(1 2+3)` panicked in `prepareEvalInfixExp`; repository fix cc2477f). -/
 theorem fixed_operator_named_function_witness : evalTokens semU witnessOpFn = .ok () := by decide
 
+/-- tokens efp emits for `SUM(({1,2}))` -/
+def witnessArraySep : List Tok :=
+  [fstart "SUM", ⟨"", .subexpr, .start⟩, fstart "ARRAY", fstart "ARRAYROW", num "1", ⟨",", .argument, .nothing⟩,
+   num "2", fstop, fstop, ⟨"", .subexpr, .stop⟩, fstop]
+
+/-- regression of the repaired defect "array separators flush the operator stack past an open
+parenthesis" (`SUM(({1,2}))` panicked in `parseToken`; repository fix 6963681). -/
+theorem fixed_array_separator_witness : evalTokens semU witnessArraySep = .ok () := by decide
+
 /-- with functions the machine can still be driven into a panic by token lists efp cannot
 emit (here: a Function Stop inside an open parenthesis): the in-function no-panic claim is
 NOT proved in Lean; it rests on the transcript (model ≡ code on every explored list,
